@@ -242,3 +242,57 @@ package authz
 //@   modifies heap oidcv1.OIDCConfig.AuthorizationUri, heap oidcv1.OIDCConfig.TokenUri, heap oidcv1.OIDCConfig.JwksConfig, heap oidcv1.OIDCConfig_JwksFetcherConfig.JwksUri, heap oidcv1.LogoutConfig.RedirectUri
 //@   ensures  err_nil: (result1 != nil) == (result0 == nil)
 //@   ensures  handler: result1 == nil ==> HandlerCfg(result0) == cfg && HandlerReady(result0)
+
+// ---------------------------------------------------------------------------------------------
+// C09 under interference (contract variant intf): logouts of any session may be answered by other
+// requests between two store operations of this check (ghost LoggedOut, see the intf variants of
+// the SessionStore contracts). A check must not answer OK for, nor bring back, a session whose
+// logout has been answered — unless it completes a new login for it (callback).
+// ---------------------------------------------------------------------------------------------
+
+//@ func (*oidcHandler).refreshToken
+//@   variant intf
+//@   requires wf: HandlerOK(o) && log != nil && expiredTokens != nil && o.httpClient != nil
+//@   requires inv: StoreInv(View, Issued)
+//@   requires lo_issued: LoIssued(LoggedOut, Issued)
+//@   modifies ghost IdP, ghost View, ghost Clk, ghost EnvView, ghost LoggedOut
+//@   ensures  inv: StoreInv(View, Issued)
+//@   ensures  lo_issued: LoIssued(LoggedOut, Issued)
+//@   ensures  lo_mono: forall x string :: old(LoggedOut)[StoreFor(o.sessions, o.config).pay][x] ==> LoggedOut[StoreFor(o.sessions, o.config).pay][x]
+//@   ensures  final: LogoutsFinal(old(View), old(LoggedOut), StoreFor(o.sessions, o.config).pay) ==> LogoutsFinal(View, LoggedOut, StoreFor(o.sessions, o.config).pay)
+//@   ensures  validated: result != nil ==> Validated(o.config, result.IDToken) && result.IDToken != ""
+
+//@ func (*oidcHandler).redirectToIDP
+//@   variant intf
+//@   requires wf: HandlerOK(o) && log != nil && resp != nil
+//@   requires inv: StoreInv(View, Issued)
+//@   requires lo_issued: LoIssued(LoggedOut, Issued)
+//@   modifies resp.HttpResponse, resp.Status, ghost View, ghost Issued, ghost LastSid, ghost NGen, ghost Clk, ghost NDraw, ghost EnvView, ghost LoggedOut
+//@   ensures  denied: IsDenied(resp) && RespCode(resp) == 16 && DeniedOf(resp) != nil
+//@   ensures  inv: StoreInv(View, Issued)
+//@   ensures  lo_issued: LoIssued(LoggedOut, Issued)
+//@   ensures  lo_mono: forall x string :: old(LoggedOut)[StoreFor(o.sessions, o.config).pay][x] ==> LoggedOut[StoreFor(o.sessions, o.config).pay][x]
+//@   ensures  final: LogoutsFinal(old(View), old(LoggedOut), StoreFor(o.sessions, o.config).pay) ==> LogoutsFinal(View, LoggedOut, StoreFor(o.sessions, o.config).pay)
+
+//@ func (*oidcHandler).retrieveTokens
+//@   variant intf
+//@   requires wf: HandlerOK(o) && log != nil && resp != nil && o.httpClient != nil
+//@   requires inv: StoreInv(View, Issued)
+//@   requires lo_issued: LoIssued(LoggedOut, Issued)
+//@   modifies resp.HttpResponse, resp.Status, ghost View, ghost IdP, ghost Clk, ghost EnvView, ghost LoggedOut
+//@   ensures  denied: IsDenied(resp) && RespCode(resp) != 0 && DeniedOf(resp) != nil
+//@   ensures  inv: StoreInv(View, Issued)
+//@   ensures  lo_issued: LoIssued(LoggedOut, Issued)
+//@   ensures  lo_mono: forall x string :: old(LoggedOut)[StoreFor(o.sessions, o.config).pay][x] ==> LoggedOut[StoreFor(o.sessions, o.config).pay][x]
+//@   ensures  final_others: LogoutsFinal(old(View), old(LoggedOut), StoreFor(o.sessions, o.config).pay) ==> forall x string :: x != sessionID && LoggedOut[StoreFor(o.sessions, o.config).pay][x] ==> !View[StoreFor(o.sessions, o.config).pay][x].present
+
+//@ func (*oidcHandler).Process
+//@   variant intf
+//@   requires wf: HandlerOK(o) && o.httpClient != nil && resp != nil && UrlParses(o.config.GetCallbackUri())
+//@   requires inv: StoreInv(View, Issued)
+//@   requires presented: Presented == SidOf(req.GetAttributes().GetRequest().GetHttp().GetHeaders(), o.config)
+//@   requires quiet: NoLogouts(LoggedOut)
+//@   modifies resp.HttpResponse, resp.Status, resp.GetOkResponse().Headers, ghost View, ghost IdP, ghost Clk, ghost Issued, ghost LastSid, ghost NGen, ghost NDraw, ghost EnvView, ghost LoggedOut
+//@   ensures  ok_after_logout: RespCode(resp) == 0 ==> !LoggedOut[StoreFor(o.sessions, o.config).pay][Presented]
+//@   ensures  no_resurrection: req.GetAttributes().GetRequest().GetHttp() != nil && !IsCallbackReq(o.config, req.GetAttributes().GetRequest().GetHttp()) ==> LogoutsFinal(View, LoggedOut, StoreFor(o.sessions, o.config).pay)
+//@   ensures  callback_others: forall x string :: x != Presented && LoggedOut[StoreFor(o.sessions, o.config).pay][x] ==> !View[StoreFor(o.sessions, o.config).pay][x].present
